@@ -566,9 +566,14 @@ def run_check(prop, opts):
     lock = threading.Lock()
     jobs = []
     stage_info = []
+    custom_stages = []
     for si, st in enumerate(stages):
         n = int(max(1, round(st['cases'] * opts['scale'])))
         binp = bins[(st['harness'], st['flavour'])][1]
+        if st.get('custom'):
+            custom_stages.append((si, st, binp, n))
+            stage_info.append(dict(name=st['name'], harness=st['harness'], flavour=st['flavour'], cases=n, custom=st['custom']))
+            continue
         asan_bin = bins.get((st['harness'], 'asan'), (None, None))[1]
         nchunks = min(n, max(1, opts['jobs'] * st.get('chunks_per_job', 3)))
         if st.get('single_process'):
@@ -584,6 +589,18 @@ def run_check(prop, opts):
                 for (si, st, binp, asan_bin, a, bb) in jobs]
         for f in futs:
             f.result()
+    # custom stages (e.g. libFuzzer, valgrind, strace fault injection): module:function under pylib/, called sequentially
+    for (si, st, binp, n) in custom_stages:
+        import importlib
+        modn, fn = st['custom'].split(':')
+        ctx = dict(prop=prop, stage=st, bin=binp, cases=n, seed=seed, tier=tier, workdir=os.path.join(workdir, 's%d' % si), agg=agg, lock=lock,
+                   opts=opts, builder=b, run_worker=run_worker, crash_key=crash_key, san_env=san_env, VERIF=VERIF, REPO=REPO, CACHE=CACHE)
+        os.makedirs(ctx['workdir'], exist_ok=True)
+        try:
+            getattr(importlib.import_module(modn), fn)(ctx)
+        except Exception as e:
+            import traceback
+            agg['harness_errors'].append('custom stage %s failed: %s\n%s' % (st['name'], e, traceback.format_exc()[-1500:]))
     # thread sanitizer logs
     for si, st in enumerate(stages):
         if st['flavour'] == 'tsan':
